@@ -252,6 +252,99 @@ func treesOf(ms *yang.Modules) []string {
 	return out
 }
 
+// findsOf: Entry.Find from every module root to up to 12 nodes of the tree ToEntry answers with right
+// now, and across every import (first child of the imported module, by the import's prefix), with
+// the source position of the module the found node was written in.
+func findsOf(ms *yang.Modules) []string {
+	var out []string
+	where := func(m *yang.Module) string {
+		if m == nil {
+			return "nil"
+		}
+		return m.Kind() + " " + m.FullName() + "@" + yang.Source(m)
+	}
+	for _, m := range lib.DistinctModules(ms) {
+		root := yang.ToEntry(m)
+		n := 0
+		var walk func(e *yang.Entry, path string)
+		walk = func(e *yang.Entry, path string) {
+			if n >= 12 {
+				return
+			}
+			if path != "" {
+				n++
+				got := "nil"
+				if f := root.Find(path); f != nil {
+					got = f.Path()
+				}
+				out = append(out, "F find "+m.FullName()+" "+path+" -> "+got)
+			}
+			for _, k := range lib.SortedKeys(e.Dir) {
+				walk(e.Dir[k], path+"/"+k)
+			}
+		}
+		walk(root, "")
+		for _, imp := range m.Import {
+			if imp.Prefix == nil {
+				continue
+			}
+			im := ms.Modules[imp.Name]
+			if im == nil {
+				continue
+			}
+			if ks := lib.SortedKeys(yang.ToEntry(im).Dir); len(ks) > 0 {
+				p := "/" + imp.Prefix.Name + ":" + ks[0]
+				got := "nil"
+				if f := root.Find(p); f != nil {
+					got = f.Path()
+					if f.Node != nil {
+						got += " in " + where(yang.RootNode(f.Node))
+					}
+				}
+				out = append(out, "F find "+m.FullName()+" "+p+" -> "+got)
+			}
+		}
+	}
+	return out
+}
+
+// readsOf is the battery of READS a caller can make between two processing runs, on the trees as
+// they are right now: ToEntry of every module and submodule (also the ones a refused text never
+// mentioned) node by node with all fields (resolved types included) and the errors recorded on the
+// trees (treesOf), the identity values reachable from the types of the tree nodes, the value list of
+// every identity statement of every module and submodule, and Entry.Find inside every tree and
+// across every import (findsOf).
+func readsOf(ms *yang.Modules) []string {
+	out := treesOf(ms)
+	var walk func(e *yang.Entry)
+	seen := map[*yang.Entry]bool{}
+	walk = func(e *yang.Entry) {
+		if e == nil || seen[e] {
+			return
+		}
+		seen[e] = true
+		if e.Type != nil {
+			if v := typeIdentityValues(e.Type, 0); strings.Trim(v, "()") != "" {
+				out = append(out, "T "+e.Path()+" "+v)
+			}
+		}
+		for _, k := range lib.SortedKeys(e.Dir) {
+			walk(e.Dir[k])
+		}
+		if e.RPC != nil {
+			walk(e.RPC.Input)
+			walk(e.RPC.Output)
+		}
+	}
+	for _, m := range allModules(ms) {
+		walk(yang.ToEntry(m))
+		for _, id := range m.Identities() {
+			out = append(out, "I "+m.Kind()+" "+m.FullName()+" "+id.Name+" "+identityList(id.Values))
+		}
+	}
+	return append(out, findsOf(ms)...)
+}
+
 func nameMaps(ms *yang.Modules) map[string]*yang.Module {
 	out := map[string]*yang.Module{}
 	for k, v := range ms.Modules {
@@ -392,11 +485,13 @@ func runGo(h History) GoRes {
 		// submodules by name and revision) must be answered as by the value that never saw the
 		// refused texts
 		qa, qb := queries(ms, lookupsOnly, false), queries(shadow, lookupsOnly, false)
-		if (op.Op == "load" && sr.Load != "accepted") || op.Op == "walk" {
-			// right after a refused load (and after a walk, which converts everything anyway): the
-			// trees ToEntry answers with, node by node, and the errors recorded on them - a reader
-			// that comes before the next Process must see what it would see without the refused text
-			qa, qb = append(qa, treesOf(ms)...), append(qb, treesOf(shadow)...)
+		if (op.Op == "load" && sr.Load != "accepted") || op.Op == "walk" || h.ReadsEverywhere {
+			// right after a refused load (and after a walk, which converts everything anyway; in a
+			// reads-everywhere history after every operation): the whole read battery - the trees
+			// ToEntry answers with, node by node, the errors recorded on them, identity value lists,
+			// Find inside the trees and across imports - a reader that comes before the next Process
+			// must see what it would see without the refused text
+			qa, qb = append(qa, readsOf(ms)...), append(qb, readsOf(shadow)...)
 		}
 		if d := rescorr.Diff(qa, qb); d != "" {
 			d = strings.Replace(d, "| model:", "| the same history without the refused loads:", 1)
@@ -780,10 +875,34 @@ func main() {
 		}
 		hs = append(hs, h)
 	}
+	// histories built around a refused text of several statements after a processing run, with reads
+	// right behind it (shards of their own: the histories above stay what they were for a given seed)
+	nRefused := 700
+	if f.Thorough() {
+		nRefused = 25000
+	}
+	for i := 0; i < nRefused; i++ {
+		h := genRefusedHistory(f.Rand(2000000+i), maxLen)
+		if i%4 == 3 {
+			h.Mode = "stmts"
+		}
+		hs = append(hs, h)
+	}
+	if only := os.Getenv("CORR_C18_ONLY"); only != "" {
+		// diagnosis only (not used by ./check): run the histories whose origin starts with this
+		var sel []History
+		for _, h := range hs {
+			if strings.HasPrefix(h.Origin, only) {
+				sel = append(sel, h)
+			}
+		}
+		hs = sel
+	}
 	distinct := lib.NewDistinct()
-	var nOps, nProc, nProcClean, nProcErr, nRead, nReadCompared, nWalk, outside, crashes, reproc, afterReject, incremental int64
+	var nOps, nProc, nProcClean, nProcErr, nRead, nReadCompared, nWalk, outside, crashes, reproc, afterReject, incremental, readsEverywhere, refusedAfterProc, readAfterRefused int64
 	faults := map[string]int64{}
 	loads := map[string]int64{}
+	multiHeads := map[string]int64{}
 	origins := map[string]int64{}
 	modes := map[string]int64{}
 	examined := 0
@@ -802,6 +921,9 @@ func main() {
 				modes["text"]++
 			}
 			origins[strings.SplitN(o.H.Origin, "/", 2)[0]]++
+			if o.H.ReadsEverywhere {
+				readsEverywhere++
+			}
 			if o.Crashed {
 				crashes++
 				examined++
@@ -837,7 +959,14 @@ func main() {
 				switch op.Op {
 				case "load":
 					loads[s.Load]++
-					if op.Fault != "" {
+					if strings.HasPrefix(op.Fault, "multi:") {
+						// refusedMulti: counted by what is refused, and by what had been registered before it
+						k := strings.Index(op.Fault, "-then-")
+						faults["multi:*"+op.Fault[k:]+" -> "+s.Load]++
+						for _, hd := range strings.Split(op.Fault[len("multi:"):k], "+") {
+							multiHeads[hd]++
+						}
+					} else if op.Fault != "" {
 						faults[op.Fault+" -> "+s.Load]++
 					}
 					if s.Load == "accepted" {
@@ -847,6 +976,12 @@ func main() {
 						}
 					} else {
 						seenReject = true
+						if seenProc {
+							refusedAfterProc++
+						}
+						if i+1 < len(o.H.Ops) && o.H.Ops[i+1].Op == "read" {
+							readAfterRefused++
+						}
 					}
 					lastWasProc = false
 				case "process":
@@ -900,7 +1035,7 @@ func main() {
 	if maxLen >= 12 {
 		maxMods = 3
 	}
-	res.Rule = fmt.Sprintf("histories of load(good text) | load(bad text) | process | read | walk of length <= %d on one Modules value: %d corpus histories (the D30-D32, D44-D46, D55 witnesses, the histories of the Lean non-vacuity examples, imports / submodules arriving after a first Process, unions over typedefs of a library whose newer revision arrives late, extension-bearing built-in types whose extension module arrives after a Process / read), each in raw-text and in statement-tree mode, then seeded histories over the texts of a generated module set (harness/gen: 1-%d modules with submodules, groupings, typedefs, identities, augments, deviations) in as-generated / submodules-first / reversed / shuffled arrival order, 40%% with another (later or earlier) revision of one module whose body differs, one load in seven offers two pending texts as one (several top-level statements, registered all or nothing), with process, read (Find), walk (ToEntry + GetErrors + a visit of every node of everything) and bad texts interleaved; every tenth history is about namespaces: after a Process, walk or read of a generated set a differently named module arrives that claims a namespace already in use, and / or a newer revision of a module with a changed namespace (a fresh one or another module's), and / or a module that takes over the namespace such a revision gave up; every fifth history is built around a submodule revision that is superseded after a Process: module m includes s, the first revision of s has an include (submodule t) and / or an import (module lib) of its own and uses what they bring (grouping, typedef, identity base, identityref), a newer (one time in five: older) revision of s without those statements arrives after a Process, sometimes a third one after another, so that nothing reaches the old revision - and sometimes t - any more; in the general histories one revision variant in three is of a submodule; every fifth history is built around types that name a built-in and still depend on the module set: a generated module gets unions (nested, inside typedefs at module and container level, in leaf-lists) whose members are typedefs of an imported type library beside decimal64 / enumeration / bits / leafref members with restrictions of their own, and built-in types (string, int8, enumeration, decimal64, bits, leafref, boolean, union and its members) that carry an extension statement of an imported module; the library arrives early in one revision and after a Process in another that redefines the typedefs (other base kind, range, enum / bit set, fraction digits, union members), the extension module arrives only after a first Process, walk or read; bad texts = the good text of a pending or loaded module with a nested scope holding an unresolvable typedef (60%%) and ONE late fault (unknown substatement deep inside the last statement, missing type at the end, syntax error at the end, a non-module node after the module, a second module in the text that is a duplicate, the text twice; a text of 2-3 top-level statements that starts with a NEWER REVISION of a loaded module - sometimes with a moved namespace, sometimes behind a brand-new module - and ends with a statement add refuses: a duplicate, a non-module node, a module name with an @) or an exact duplicate (same or other file name); distinct_nontrivial = distinct histories (by operations and texts) with a process that follows an accepted load and an earlier process or rejected load, i.e. where incrementality or failed-load transparency is actually exercised", maxLen, nCorpus, maxMods)
+	res.Rule = fmt.Sprintf("histories of load(good text) | load(bad text) | process | read | walk of length <= %d on one Modules value: %d corpus histories (the D30-D32, D44-D46, D55 witnesses, the histories of the Lean non-vacuity examples, imports / submodules arriving after a first Process, unions over typedefs of a library whose newer revision arrives late, extension-bearing built-in types whose extension module arrives after a Process / read), each in raw-text and in statement-tree mode, then seeded histories over the texts of a generated module set (harness/gen: 1-%d modules with submodules, groupings, typedefs, identities, augments, deviations) in as-generated / submodules-first / reversed / shuffled arrival order, 40%% with another (later or earlier) revision of one module whose body differs, one load in seven offers two pending texts as one (several top-level statements, registered all or nothing), with process, read (Find), walk (ToEntry + GetErrors + a visit of every node of everything) and bad texts interleaved; every tenth history is about namespaces: after a Process, walk or read of a generated set a differently named module arrives that claims a namespace already in use, and / or a newer revision of a module with a changed namespace (a fresh one or another module's), and / or a module that takes over the namespace such a revision gave up; every fifth history is built around a submodule revision that is superseded after a Process: module m includes s, the first revision of s has an include (submodule t) and / or an import (module lib) of its own and uses what they bring (grouping, typedef, identity base, identityref), a newer (one time in five: older) revision of s without those statements arrives after a Process, sometimes a third one after another, so that nothing reaches the old revision - and sometimes t - any more; in the general histories one revision variant in three is of a submodule; every fifth history is built around types that name a built-in and still depend on the module set: a generated module gets unions (nested, inside typedefs at module and container level, in leaf-lists) whose members are typedefs of an imported type library beside decimal64 / enumeration / bits / leafref members with restrictions of their own, and built-in types (string, int8, enumeration, decimal64, bits, leafref, boolean, union and its members) that carry an extension statement of an imported module; the library arrives early in one revision and after a Process in another that redefines the typedefs (other base kind, range, enum / bit set, fraction digits, union members), the extension module arrives only after a first Process, walk or read; bad texts = the good text of a pending or loaded module with a nested scope holding an unresolvable typedef (60%%) and ONE late fault (unknown substatement deep inside the last statement, missing type at the end, syntax error at the end, a non-module node after the module, a second module in the text that is a duplicate, the text twice; a text of 2-3 top-level statements that starts with a NEWER REVISION of a loaded module - sometimes with a moved namespace, sometimes behind a brand-new module - and ends with a statement add refuses: a duplicate, a non-module node, a module name with an @) or an exact duplicate (same or other file name); on top of these %d histories built around a REFUSED TEXT OF SEVERAL STATEMENTS after a processing run: a generated set (submodules, augments, deviations, choices, uses - the processed trees differ from a raw conversion; one time in three one text is held back) is loaded and processed, then once or twice a text of 2-4 top-level statements whose earlier statements add accepts (a brand-new module with / without revision or augmenting a loaded module, a newer revision of a loaded module or submodule that takes the bare name over - sometimes with a moved namespace or a dropped node -, an older revision, a brand-new submodule of a loaded module, the held-back text) and whose LAST statement add refuses (a duplicate of a loaded text, the first statement of the text again, the same name and revision with another body, a container / grouping / typedef / leaf, a module or submodule name with an @), directly followed by 1-2 reads (Find from ms.Modules[name] of modules the text mentioned and of modules it did not), sometimes a walk, sometimes the held-back text arriving on its own with a read before the next Process, then a final Process; half of them put the read battery to the one value and its shadow after every operation; distinct_nontrivial = distinct histories (by operations and texts) with a process that follows an accepted load and an earlier process or rejected load, i.e. where incrementality or failed-load transparency is actually exercised", maxLen, nCorpus, maxMods, nRefused)
 	res.Distribution["histories_corpus"] = int64(2 * nCorpus)
 	res.Distribution["histories_with_loads_as_raw_text"] = modes["text"]
 	res.Distribution["histories_with_loads_as_statement_trees"] = modes["stmts"]
@@ -914,13 +1049,17 @@ func main() {
 	res.Distribution["read_ops"] = nRead
 	res.Distribution["read_ops_compared_with_model"] = nReadCompared
 	res.Distribution["walk_ops"] = nWalk
+	res.Distribution["histories_with_read_battery_after_every_op"] = readsEverywhere
+	res.Distribution["refused_loads_after_a_process"] = refusedAfterProc
+	res.Distribution["refused_loads_directly_followed_by_a_read"] = readAfterRefused
 	res.Distribution["loads_by_answer"] = loads
 	res.Distribution["bad_texts_by_fault_and_answer"] = faults
+	res.Distribution["refused_multi_statements_registered_before_the_refusal"] = multiHeads
 	res.Distribution["histories_by_arrival_order"] = origins
 	res.Distribution["histories_outside_model"] = outside
 	res.Distribution["crashes"] = crashes
 	res.Notes = append(res.Notes,
-		"after EVERY operation (also right after an accepted or refused load, before the next Process) the lookups that need no processed trees - FindModuleByNamespace for every namespace in play and an unknown one, FindModule for every module / submodule name and name@revision and an unknown name - are put to the one value and to a SHADOW value that runs the same history (same Process, read and walk operations) without the loads the one value refused, and compared with the source position of what is returned (Go vs Go): a refused text leaves no trace for every later load, processing run and query; right after every REFUSED load (and after every walk) also the trees ToEntry answers with for every module and submodule are compared node by node, all fields, with the errors recorded on them - a reader that comes before the next Process sees the processed trees (submodule nodes, augments, implied cases, deviations), not a raw conversion",
+		"after EVERY operation (also right after an accepted or refused load, before the next Process) the lookups that need no processed trees - FindModuleByNamespace for every namespace in play and an unknown one, FindModule for every module / submodule name and name@revision and an unknown name - are put to the one value and to a SHADOW value that runs the same history (same Process, read and walk operations) without the loads the one value refused, and compared with the source position of what is returned (Go vs Go): a refused text leaves no trace for every later load, processing run and query; right after every REFUSED load (and after every walk; in the reads-everywhere histories after every operation) the whole READ BATTERY is put to both values and compared: the trees ToEntry answers with for every module and submodule (also the ones the refused text never mentioned) node by node, all fields incl. the resolved types, the errors recorded on them (GetErrors), the identity values reachable from the types of the nodes, the value list of every identity statement, Entry.Find from every module root to up to 12 nodes of its tree and across every import - a reader that comes before the next Process sees the processed trees (submodule nodes, augments, implied cases, deviations), not a raw conversion; a read op after a refused load is also answered by the session model from the finished Process (the registry is unchanged) and compared",
 		"after every Process the same queries are put to the one value and to the batch value and compared (Go vs Go; the session model has no such operations): FindModuleByNamespace for every namespace in play and an unknown one, FindModule for every module / submodule name and name@revision and an unknown name, Entry.Find from every module root to up to 12 nodes of its tree and across every import, GetModule of the first module (every third operation; it processes once more); Entry.Namespace and Entry.InstantiatingModule of every node are part of the dump (ns=, im=); the walk operation asks the namespace and name questions between loads as a perturbation",
 		"every process op is checked twice: Go (one value) vs Go (batch of the accepted texts on a fresh value) on an extended dump (all node fields, submodule trees, identity value lists with source positions), and Go vs the Lean session model on the projection "+strings.Join(keys, ",")+" + errors",
 		"3 of 4 generated histories (and every corpus history) send the raw texts: generic parser, AST builder and registry of the model decide whether a text is accepted, and the answer to every load is compared with goyang's (syntax / build / add); 1 of 4 (and every corpus history a second time) send the statement trees of the real generic parser with goyang's verdict on parser and builder as a flag, duplicates and non-module nodes are then still decided by the model and compared",
